@@ -216,17 +216,20 @@ Section Contract.
   Definition cst0 := {| licensed := false; closed := false; failed := false; rfailed := false; dirty := false;
                         last_flush_pending := false; streak := 0 |}.
 
-  (* at most this many readiness/flush polls between two progress events (a write, or a read
-     attempt, which starts a new iteration of the pump loop) *)
+  (* at most this many readiness/flush polls between two progress events (a write, a read
+     attempt - which starts a new iteration of the pump loop - or a Ready(Ok) answer) *)
   Definition max_streak := 8.
 
   Definition c_step (s : cst) (c : call) : bool * cst :=
     match c with
     | CReady r =>
+      (* a Ready(Ok) answer is progress (the writer may go on to write or to look at its
+         queues); what is bounded is re-polling a transport that keeps saying "not ready" *)
       (S (streak s) <=? max_streak,
        {| licensed := match r with TOk => true | _ => false end; closed := closed s;
           failed := match r with TErr => true | _ => failed s end; rfailed := rfailed s; dirty := dirty s;
-          last_flush_pending := last_flush_pending s; streak := S (streak s) |})
+          last_flush_pending := last_flush_pending s;
+          streak := match r with TOk => 0 | _ => S (streak s) end |})
     | CSend m r =>
       (licensed s && negb (closed s) && negb (failed s),
        {| licensed := false; closed := closed s;
